@@ -178,7 +178,7 @@ impl Prop for C04 {
     }
     fn components(&self) -> Value {
         json!({"real": ["sentinel-core: EntryBuilder, global slot chain with all rule-check and stat slots, resource nodes, inbound node, all five rule managers"],
-               "stub": ["clock and sleep (virtual, hook H1)", "getrandom (seeded)", "logger (none)", "system collectors (never started)"]})
+               "stub": ["clock and sleep (virtual, hook H1)", "getrandom (seeded)", "logger (a sink that formats every record of the library and discards it)", "system collectors (never started)"]})
     }
 
     fn generate(&self, rng: &mut Rng, slot_ns: u64, _avoid: bool) -> Value {
